@@ -37,6 +37,7 @@ def enc_res(rs):
 
 def main():
     from depccg.grammar import en, ja
+    from depccg.types import CombinatorResult
     mods = {'en': en, 'ja': ja}
     fin, fout = sys.argv[1], sys.argv[2]
     with open(fin) as f, open(fout, 'w') as g:
@@ -69,10 +70,11 @@ def main():
                             rs = mod.apply_unary_rules(x, table)
                     o['res'] = enc_res(rs)
                     # a caller may do what it likes with the list it got (the property says the function returns the same list
-                    # on every call): emptying it must not affect later calls
+                    # on every call): emptying it and putting something else into it must not affect later calls
                     try:
                         del rs[:]
-                    except TypeError:
+                        rs.append(CombinatorResult(cat=x, op_string='INJECTED-BY-CALLER', op_symbol='INJECTED', head_is_left=True))
+                    except (TypeError, AttributeError):
                         pass
                 except Exception as e:
                     o['raised'] = True
